@@ -225,6 +225,14 @@ def _families(rng):
         hash(ts[0])  # and one whose hash has been computed before it is written
         return ts
     out.append(("Clifford tableaux after measurements (used workspace)", _used_tableaux()))
+    try:
+        import cirq_ionq
+        out.append(("vendor gates with every field non-default", [cirq_ionq.MSGate(phi0=0.1, phi1=0.2, theta=0.1), cirq_ionq.MSGate(phi0=0.1, phi1=0.2, theta=0.25), cirq_ionq.GPIGate(phi=0.3),
+                                                                   cirq_ionq.GPI2Gate(phi=-0.2), cirq_ionq.ZZGate(theta=0.15)]))
+    except ImportError:
+        pass
+    out.append(("noise models with every option non-default", [cirq.ConstantQubitNoiseModel(cirq.depolarize(0.1), prepend=True), cirq.ConstantQubitNoiseModel(cirq.X, prepend=True),
+                                                               cirq.ConstantQubitNoiseModel(cirq.bit_flip(0.2))]))
     ch = cirq.StabilizerStateChForm(num_qubits=2)
     ch.apply_h(0); ch.apply_cx(0, 1); ch.measure([0], seed=1)
     out.append(("CH form after a measurement", ch))
